@@ -18,7 +18,7 @@ from typing import Any, Dict, List, Tuple
 from ..core import Ctx, Failure
 from ..leanbridge import Driver
 
-THEOREMS = [
+THEOREMS_INCR = [
     "TDV.Incr.flatten_keysNodup",
     "TDV.Incr.lookup_flatten",
     "TDV.Incr.unflatten_flatten",
@@ -26,7 +26,7 @@ THEOREMS = [
     "TDV.Incr.lossless",
     "TDV.Incr.lossless_state",
 ]
-LEAN_MODULES = ["TorchDataVerif.Props.C07"]
+LEAN_MODULES_INCR = ["TorchDataVerif.Props.C07"]
 RULE = ("state histories are generated from one PRNG: nested dicts (depth<=3) with int/str/list/None/{}/tensor leaves; "
         "steps add/delete/replace keys, turn leaves into dicts and back, mutate previously reported lists/tensors in place, "
         "or replace the whole state by a scalar/None. A case is non-trivial when its history contains at least one key deletion, "
@@ -398,12 +398,10 @@ def is_none_after_dict(f: Failure) -> bool:
     return f.kind == "wrapper_history" and f.inp.get("none_mode") == "sometimes"
 
 
-KNOWN = {
-    "state-becomes-none": is_none_after_dict,
-}
+KNOWN_INCR: dict = {}
 
 
-def run(ctx: Ctx):
+def run_incr(ctx: Ctx):
     drv = Driver()
     reqs, metas = [], []
     n = ctx.n(400, 6000)
@@ -432,11 +430,9 @@ def run(ctx: Ctx):
     c07_loader.run(ctx)
 
 
-def escalate(ctx: Ctx):
-    run(ctx)
 
 
-def replay(ctx: Ctx, payload) -> Tuple[bool, str]:
+def replay_incr(ctx: Ctx, payload) -> Tuple[bool, str]:
     kind, inp = payload["kind"], payload["input"]
     if kind == "incr_history":
         obs = run_history(inp)
@@ -458,3 +454,18 @@ def replay(ctx: Ctx, payload) -> Tuple[bool, str]:
         from . import c07_loader
         return c07_loader.replay(inp)
     return True, "unknown kind"
+
+
+# ------------------------------------------------------------------------------------------------
+from . import _compose, c07w  # noqa: E402
+
+PARTS = [
+    _compose.Part("incr", run_incr, replay_incr, theorems=THEOREMS_INCR, modules=LEAN_MODULES_INCR, known=KNOWN_INCR),
+    _compose.Part("c07w", c07w.run_kd, c07w.replay_kd, theorems=c07w.THEOREMS, modules=c07w.LEAN_MODULES),
+]
+try:
+    from . import mp_parts
+    PARTS.append(_compose.Part("mp", lambda ctx: None, None, theorems=["TDV.MP.delta_at_yield_map"], modules=mp_parts.LEAN_MODULES))
+except ImportError:
+    pass
+_compose.assemble(globals(), PARTS, RULE, EXPLANATION, ASSUMPTIONS)
